@@ -35,7 +35,8 @@ PROPS = {
                 'pipelined, truncated and mutated variants); distinct = distinct (limit, bytes); non-trivial = not a plain wait outcome',
         'explanation': 'Theorems: wf_split1/wf_split2 for ANY slot function and key list (one canonical fragment per distinct slot holding exactly '
                        'the items of that slot in order; partition corollary), and end to end through the decoder for MGET/DEL/MSET. The Go splitter '
-                       'is tied to the model differentially and the split spec is evaluated on the Go fragments.',
+                       'is tied to the model differentially and the split spec is evaluated on the Go fragments. The run evaluates decode_fast (linear time), '
+                       'proved equal to decode for every input (C06_evaluated_decoder_is_the_model), so a request with more keys than slots runs in every tier.',
         'assumptions': ['argument lengths and counts below 10^18 (an int64 length cannot exceed it)', 'Go map iteration order is irrelevant: fragments compared as a slot-sorted list'],
     },
     'C08': {
